@@ -55,5 +55,4 @@ MCReqTable ==
        [] r = ""             -> R(FALSE, 0, 0, 0, 0, "", "")            \* VERSION= (validate:"required" fails)
        [] r = "<missing>"    -> R(FALSE, 0, 0, 0, 0, "", "")]           \* no mockery-tools.env at all
 
-MCCleanKinds == {"clean", "ignored"}
 =============================================================================
